@@ -5,6 +5,7 @@ import (
 	"errors"
 	"fmt"
 	"math"
+	"math/big"
 	"os"
 	"os/exec"
 	"strings"
@@ -21,7 +22,7 @@ import (
 func hostileMenu(data []byte) []int {
 	_, exact := ref.Run(data).FirstValue()
 	rem := len(data)
-	return []int{0, math.MinInt, math.MinInt + 1, -rem - 1, -1, 1, 2, exact - 1, exact, exact + 1, rem / 2, rem - 1, rem, rem + 1, 2 * rem, math.MaxInt32, 1 << 32,
+	return []int{0, math.MinInt, math.MinInt + 1, -rem - 1, -1, 1, 2, exact - 1, exact, exact + 1, rem / 2, rem - 1, rem, rem + 1, 2 * rem, math.MaxInt32, big32(),
 		math.MaxInt - rem - 1, math.MaxInt - rem, math.MaxInt - rem + 1, math.MaxInt - 1, math.MaxInt, math.MaxInt / 2, math.MinInt / 2}
 }
 
@@ -306,6 +307,38 @@ func c10(r *eng.Run) {
 	for t := 0; t < 256; t++ {
 		_ = rjson.TokenType(t).String()
 	}
+	// inputs whose hazards are not byte-level state: strings with two escapes at every distance,
+	// float literals on every conversion path (halfway points, thresholds, >800 digits)
+	extra := twoEscapeStrings()
+	for _, be := range []int{1, 52, 1000, 1023, 1024, 2046} {
+		for _, m := range []uint64{0, 1, 1<<52 - 1} {
+			bits := uint64(be)<<52 | m
+			f, next := math.Float64frombits(bits), math.Float64frombits(bits+1)
+			if f == 0 || math.IsInf(next, 0) {
+				continue
+			}
+			h := new(big.Float).SetPrec(2200).Add(new(big.Float).SetPrec(2200).SetFloat64(f), new(big.Float).SetPrec(2200).SetFloat64(next))
+			h.Quo(h, big.NewFloat(2))
+			for _, v := range halfwayVariants(trimDec(h.Text('f', 1080))) {
+				extra = append(extra, []byte(v), []byte("[-"+v+"]"))
+			}
+		}
+	}
+	{
+		h := new(big.Float).SetPrec(2200).SetMantExp(big.NewFloat(1), -1075)
+		for _, v := range halfwayVariants(trimDec(h.Text('f', 1080))) {
+			extra = append(extra, []byte(v), []byte(`{"a":-`+v+`}`))
+		}
+	}
+	for _, w := range extra {
+		wc := eng.Exact(w)
+		eng.Beat(wc)
+		apiRuns++
+		if bad, got := apiSweep(wc); bad != "" {
+			r.Violation(eng.Replay{Engine: "api", Entry: bad, Sig: bad, InputB64: wc, Expected: "returns normally with 0<=p<=len when err==nil", Got: got})
+		}
+	}
+	r.Set("api_sweep_extra_inputs", len(extra))
 	e1Evidence(r, D, K, results...)
 	r.Set("hostile_handler_executions", hostileExecs)
 	r.Set("hostile_deviation_bound", dev)
@@ -499,3 +532,12 @@ func tail(s string, n int) string {
 }
 
 var _ = errors.New
+
+// big32 is 2^32 where int is 64 bits wide and MaxInt-7 on 32-bit targets.
+func big32() int {
+	v := uint64(1) << 32
+	if uint64(int(v)) != v {
+		return math.MaxInt - 7
+	}
+	return int(v)
+}
